@@ -1232,6 +1232,28 @@ func runC03(cfg Config, r *Result) {
 			add(c)
 		}
 	}
+	// binder programs (harness/c03binders.go): parameters, variadic and `_` parameters, handler parameters, loop variables,
+	// locals, each used or not; as they are and cut / edited by every mutation family (function stubs typed so far)
+	for k := 0; k < cfg.N(300, 3000); k++ {
+		src := genBinderProgram(rng)
+		add(mutCase{src, "binders"})
+		if k%10 == 0 {
+			var ms []mutCase
+			mutate(corpusProg{Src: src}, kinds, rng, cfg.N(4, 12), &ms)
+			for _, c := range ms {
+				c.Stream = "binders:" + c.Stream
+				add(c)
+			}
+		} else { // the cheap cuts: every line prefix, and one deleted line
+			lines := strings.SplitAfter(src, "\n")
+			for i := 1; i < len(lines); i++ {
+				add(mutCase{strings.Join(lines[:i], ""), "binders:prefix-line"})
+			}
+			if i := rng.Intn(len(lines)); len(lines) > 1 {
+				add(mutCase{strings.Join(lines[:i], "") + strings.Join(lines[i+1:], ""), "binders:del-line"})
+			}
+		}
+	}
 	for k := 0; k < cfg.N(150, 3000) && len(small) > 1; k++ { // splices
 		a, b := spans(small[rng.Intn(len(small))].Src), spans(small[rng.Intn(len(small))].Src)
 		i, j := rng.Intn(len(a)+1), rng.Intn(len(b)+1)
